@@ -93,6 +93,13 @@ class ClassWorld:
     def _resolver(self, obj: Obj, attr: str) -> Any:
         owner, fn = self.find_method(obj.attrs["__class__"], attr)
         if fn is None:
+            # class-level constants (e.g. a lookup table defined in the class body)
+            for c in self.mro(obj.attrs["__class__"]):
+                for st in self.classes[c].body:
+                    if isinstance(st, ast.Assign) and any(isinstance(t, ast.Name) and t.id == attr for t in st.targets):
+                        return self.ev.eval(st.value, self.genv)
+                    if isinstance(st, ast.AnnAssign) and isinstance(st.target, ast.Name) and st.target.id == attr and st.value is not None:
+                        return self.ev.eval(st.value, self.genv)
             raise Undecided(f"{obj.attrs['__class__']} has no attribute {attr}")
         if any(dotted(d) == "property" for d in fn.decorator_list):
             return FunctionValue(fn, self.ev, self.genv, self_obj=obj, owner=owner)()
